@@ -6827,14 +6827,14 @@ class SFTPServerHandler(SFTPHandler):
                 if inspect.isawaitable(result):
                     await result
 
-                if len(data) < size:
+                if not data:
                     break
 
-                read_from_offset += size
-                write_to_offset += size
+                read_from_offset += len(data)
+                write_to_offset += len(data)
 
                 if not read_to_end:
-                    read_from_length -= size
+                    read_from_length -= len(data)
         else:
             raise SFTPInvalidHandle('Invalid file handle')
 
